@@ -1,3 +1,3 @@
 SPECIFICATION TraceSpec
-CONSTANTS Lenient = TRUE Alphabet = {} MaxLen = 0
+CONSTANTS ArrBE = FALSE Lenient = TRUE Alphabet = {} MaxLen = 0
 CONSTANT Formats <- TrFormats
